@@ -151,7 +151,7 @@ def run_case(case, stats):
                     got_err = True
                 else:
                     r.tape.append((env.now, "escape", kern.canon_exc(e)))
-            except Exception as e:
+            except (Exception, kern.Crit) as e:
                 r.tape.append((env.now, "escape", kern.canon_exc(e)))
             nstep += 1
             stats["steps"] += 1
